@@ -32,6 +32,49 @@ func (c *ctx) resolveAll(shuffle bool) {
 	}
 }
 
+// cacheHistory: first thing in a fresh process: a random sequence of first and repeated uses of
+// valid and invalid types that reference each other; after every use the outcome and the size of
+// the build cache are compared with the state machine of BuildCache.lean (the driver keeps the
+// model state across `use` lines).
+func (c *ctx) cacheHistory(nops int) {
+	var pool []*universe.UStruct
+	for i := range universe.Structs {
+		u := &universe.Structs[i]
+		if u.Group == "graph" || u.Group == "invalid" {
+			pool = append(pool, u)
+		}
+	}
+	leafs := c.accepted("leaf", "recursive")
+	for i := 0; i < nops; i++ {
+		var u *universe.UStruct
+		if c.r.Intn(8) == 0 && len(leafs) > 0 {
+			u = leafs[c.r.Intn(len(leafs))]
+		} else {
+			u = pool[c.r.Intn(len(pool))]
+		}
+		c.h.opUse(u)
+	}
+}
+
+func (h *H) opUse(u *universe.UStruct) {
+	line := fmt.Sprintf("use %d", u.Sid)
+	h.mark(line)
+	res := safely(func() string {
+		p := reflect.New(u.Type)
+		buf := make([]byte, 4096)
+		if _, err := frugal.EncodeObject(buf, nil, p.Interface()); err != nil {
+			if strings.Contains(err.Error(), "buffer") {
+				return "ok" // the type was accepted; only the probe buffer was short
+			}
+			return "err"
+		}
+		return "ok"
+	})
+	pf, _ := freflect.VerifCacheSizes()
+	h.emit(fmt.Sprintf("%s -> %s pf=%d", line, res, pf))
+	h.stats["use"]++
+}
+
 func (c *ctx) spanOps(nseq int) {
 	for k := 0; k < nseq; k++ {
 		sp := freflect.NewVerifSpan()
